@@ -172,6 +172,12 @@ def main(prop, tier="quick", only=None):
             reproduced = True
             rep["note"] = "obligation of kind '%s' is evaluated on the real imported package; the failing case is in solver_output" % o["kind"]
         rep["reproduced_on_real_code"] = reproduced
+        if o.get("needs_replay") and not reproduced:
+            # the proof failed only because the path reads loop state the loop contract says nothing about (the code's loop changed shape):
+            # that is 'undecided', not a violation, unless a failing input is reproduced on the real code
+            o["status"] = "unknown"
+            undecided.append(o)
+            continue
         path = os.path.join(outdir, "replay-%d.json" % len(violations))
         json.dump(rep, open(path, "w"), indent=1, default=str)
         violations.append((path, reproduced, o))
